@@ -19,7 +19,7 @@ LEVEL_TEXT = ('Bounded symbolic verification: for each concrete message shape (p
 LEVEL_NOTE = ('Trusted: CrossHair models + engine extension (lemmas discharged per run), netaddr model for symbolic IPv4 text '
               '(counterexamples and one witness per obligation replayed with the real netaddr). At most 4 symbolic textual '
               'fields per obligation, other fields at boundary constants; traffic-rate float concretised.')
-LEVEL_ADDED = 'Also: An ordinary AS_PATH constructed after one of more than 255 octets in the same process.'
+LEVEL_ADDED = 'Also: An ordinary AS_PATH constructed after one of more than 255 octets in the same process. The faithful-send obligation of C16 (REST send view) for announce / LOCAL_PREF / withdraw / extended-community shapes.'
 TECHNIQUE = 'symbolic execution of Update.construct/parse (CrossHair+z3), shape-concrete/value-symbolic round-trip obligations, replayed counterexamples'
 EXPLANATION = 'C06: round trip Update.construct -> Update.parse per shape; symbolic field values.'
 BOUNDS = ('prefix length 0..32 (all), <=3 prefixes per list, <=4 symbolic numeric fields per obligation, AS_PATH segments '
